@@ -51,7 +51,11 @@ type Table struct {
 	Checks       []Check
 }
 
-type Schema struct{ Tables []Table }
+// Extra: views and triggers of the current database that Atlas (community SQLite driver) does not manage.
+type Schema struct {
+	Tables []Table
+	Extra  []string
+}
 
 func (t Table) clone() Table {
 	n := t
@@ -78,6 +82,7 @@ func (t Table) clone() Table {
 
 func (s Schema) clone() Schema {
 	var n Schema
+	n.Extra = append([]string(nil), s.Extra...)
 	for _, t := range s.Tables {
 		n.Tables = append(n.Tables, t.clone())
 	}
